@@ -8,6 +8,11 @@ SHRINK_BUDGET = 300
 
 TRUSTED = [
     "Lean 4 kernel; axioms of every theorem audited (propext, Classical.choice, Quot.sound at most); leanchecker in the thorough tier",
+    "translate/extract_string_prims.py (clang-14 typed JSON AST -> lean/CppUModel/Gen/StringPrims.lean) and the C semantics it targets "
+    "(Model/CPrimSem.lean: char signed, int range-checked, unsigned mod 2^32, size_t mod 2^64, pointers = buffer + offset read through "
+    "rd/wr, C++17 evaluation order): the regenerated functions are PROVED equal to the hand models (gen_*_is_model) and are also executed "
+    "by the driver on the operands of every primitive / allocation-free method operation (a difference is a `gen-differs` line), so a "
+    "translator defect shows up as a broken proof or a disagreement, not as a false theorem",
     "hand-written models lean/CppUModel/Base/CString.lean, Model/SimpleString.lean, Model/SimpleStringOps.lean, tied to "
     "src/CppUTest/SimpleString.cpp by the h_c13 correspondence of this run: result bytes, returned numbers and the exact "
     "sequence of string-allocator events of every operation are diffed against the model",
@@ -21,8 +26,10 @@ TRUSTED = [
     "ASan/UBSan for 'reads and writes only inside the buffers' of the compiled code; std::string/libc as a second reference",
 ]
 ASSUMPTIONS = [
-    "char is signed (x86-64): bytes >= 0x80 count as control characters in printable()",
-    "LP64; string lengths and buffer sizes stay below 2^64 (hypothesis Fits / a.length < npos in the theorems)",
+    "char is signed (x86-64): bytes >= 0x80 count as control characters in printable(); the regenerated code sign-extends char -> int (sx8)",
+    "LP64; string lengths and buffer sizes stay below 2^64 (hypothesis Fits / a.length < npos / fuel < 2^64 in the theorems)",
+    "fuel: a regenerated loop function gets a fuel argument; the theorems hold for every fuel above the string length / count "
+    "(stated per theorem; the driver uses buffer length + 1); running out of fuel is the distinct outcome Err.fuel, never a wrong value",
     "at(pos) with pos > size(), StrNCpy into a too small destination, MemCmp past the operands, copyToBuffer with a size "
     "larger than the buffer, StringFromMaskedBits with byteCount 0 and AtoI of a value that does not fit int are outside "
     "the operations' contracts (stated as hypotheses; the generator respects them)",
@@ -34,13 +41,23 @@ RULE = ("scripts of 4-30 operations on several live SimpleString objects (result
         "{a,b}, bytes>=0x80, control bytes, mixed-case ASCII, empty/one-byte strings, lengths 97..103/128/200; positions in "
         "{0,1,len-1,len,len+1,npos,random}; patterns drawn from the subject; primitives and the formatter family in their "
         "own flavours; SimpleStringCollection action lists (allocate / operator[] in and out of range / size) and operations "
-        "whose C-string operand is the object's own asCharString(); a malformed stream (embedded NULs, unknown/reused labels, huge positions); non-trivial = at least one "
-        "allocating operation and one branch event of the histogram; distinct = distinct op sequences")
+        "whose C-string operand is the object's own asCharString(); a malformed stream (embedded NULs, unknown/reused labels, huge positions); "
+        "two deterministic streams on every run: the 256-byte character-class sweep (every byte through AtoU/AtoI/ToLower/lowerCase/"
+        "printable/findFrom, 8 cases) and hand-picked boundary inputs of the primitives and of the allocation-free methods "
+        "(empty operands, n in {0,1,len,len+1,npos}, bytes 0x7f/0x80/0xff, INT_MAX, 2^32 wrap); non-trivial = at least one "
+        "allocating operation and one branch event of the histogram (the two deterministic streams: one branch event); "
+        "distinct = distinct op sequences")
 
-LEVEL_TEXT = ("Machine-checked Lean 4 theorems (74, no sorry/axiom) over a bounded-buffer model of SimpleString.cpp, for ALL "
-              "NUL-free byte strings, buffers, offsets, positions and counts: every C-like primitive (StrLen, StrCmp, StrNCmp, "
-              "StrNCpy, StrStr, MemCmp, AtoI incl. a general blanks/sign/digits form, AtoU, ToLower) and every string method "
-              "(constructors, =, +, +=, ==, equalsNoCase, contains(NoCase), startsWith/endsWith, count, find/findFrom, at, "
+LEVEL_TEXT = ("Machine-checked Lean 4 theorems (104, no sorry/axiom) for ALL NUL-free byte strings, buffers, offsets, positions and counts. "
+              "(1) REGENERATED CODE: the fourteen C-like primitives (isDigit, isSpace, isUpper, isControl, isControlWithShortEscapeSequence, "
+              "ToLower, StrLen, StrCmp, StrNCmp, StrNCpy incl. its NULL/n=0 guard and returned pointer, StrStr, MemCmp, AtoU, AtoI incl. signed "
+              "overflow) and eight allocation-free methods (size, isEmpty, at, contains, startsWith, endsWith, find, findFrom) are translated "
+              "on every run from clang's typed AST of SimpleString.cpp into Lean loop functions (Gen/StringPrims.lean); 30 obligations prove "
+              "that each regenerated function equals the hand-written bounded-buffer model on every input (gen_*_is_model) and, for C strings "
+              "and any fuel above the string length (< 2^64), returns the textbook value with no out-of-bounds read, no exhausted fuel and no "
+              "signed overflow (gen_*_eq) - so an edit of these functions that changes a result breaks a proof. "
+              "(2) HAND MODEL: every other string method "
+              "(constructors, =, +, +=, ==, equalsNoCase, containsNoCase, count, "
               "subString forms, subStringFromTill, split, replace(char) incl. a NUL replacement, replace(string), lowerCase, "
               "printable, padStringsToSameLength, copyToBuffer) and SimpleStringCollection (allocate, operator[] in and out "
               "of range, size) returns the value of its textbook list definition (Spec/Text.lean, Spec/TextExt.lean), never "
@@ -51,18 +68,23 @@ LEVEL_TEXT = ("Machine-checked Lean 4 theorems (74, no sorry/axiom) over a bound
               "as an invariant over operation sequences of any length and of ANY operations, formatted construction "
               "included, whatever vsnprintf answers (step_keeps_pairing_full: every buffer released exactly once with the "
               "size it was requested with; after destroying all objects nothing is outstanding). Not proved: memory safety "
-              "of the COMPILED code (observed under ASan/UBSan); what printf prints. The model is tied to the code on every "
+              "of the COMPILED code (observed under ASan/UBSan); what printf prints. The models are tied to the code on every "
               "run by a differential harness (real SimpleString objects and collections, recording allocator and vsnprintf, "
               "std::string/libc cross-check) whose observations are also judged by an independent specification oracle, "
-              "and by constants regenerated from the source.")
-LEVEL_NOTE = ("Trusted: Lean kernel; the hand-written model (validated against the code by this run's correspondence, event "
-              "by event); vsnprintf/libc (its results are inputs; text theorems assume the libc renderings HexEnv/BinEnv/"
+              "by the regenerated functions executed next to the hand model, and by constants regenerated from the source.")
+LEVEL_NOTE = ("Trusted: Lean kernel; the AST translator and its C semantics (cross-checked: its output is proved equal to the hand "
+              "model and executed against the implementation's results); the hand-written model of the allocating methods (validated "
+              "against the code by this run's correspondence, event by event); vsnprintf/libc (its results are inputs; text theorems "
+              "assume the libc renderings HexEnv/BinEnv/"
               "header); the compiler's temporary/elision order; the constants extractor; theorem and Spec statements. The "
               "model is value-based: a use of an asCharString() pointer after the object changed is not representable "
-              "(the harness exercises the own-buffer operand cases under ASan). Not carried by theorems: memory safety "
-              "of the compiled code; decimal/hex digits printed by printf (judged by the oracle and std::string/libc on "
-              "generated inputs only).")
-TECHNIQUE = "Lean 4 refinement proofs (bounded-buffer model = textbook list functions; allocator-pairing invariant) + differential correspondence harness + regenerated constants"
+              "(the harness exercises the own-buffer operand cases under ASan). A semantically neutral rewrite of a regenerated "
+              "function that changes its loop structure breaks the shape-dependent equality proof and is reported as "
+              "`no-failing-input-found` (renamings and reorderings of independent statements are not). Not carried by theorems: "
+              "memory safety of the compiled code; decimal/hex digits printed by printf (judged by the oracle and std::string/libc on "
+              "generated inputs only); count/split/replace/printable/lowerCase/subString are hand-modelled, not regenerated.")
+TECHNIQUE = ("Lean 4 refinement proofs (regenerated C loops = bounded-buffer model = textbook list functions; allocator-pairing invariant) "
+             "+ clang-AST-to-Lean translator for the primitives and allocation-free methods + differential correspondence harness + regenerated constants")
 
 
 def hx(b):
@@ -537,9 +559,63 @@ def gen_case(rng, n, flavour, malformed=False):
     return g.ops
 
 
+def class_sweep():
+    """every byte value through the public entry points that depend on the five character classes and ToLower:
+    isSpace/isDigit via AtoU/AtoI ("<c>37"), isUpper via ToLower and lowerCase, isControl/isControlWithShortEscapeSequence
+    via printable(); 8 deterministic cases of 32 bytes"""
+    out = []
+    for base in range(0, 256, 32):
+        ops = []
+        for c in range(base, base + 32):
+            ops.append("tolower %02x" % c)
+            if c:
+                ops.append("atou %02x3337" % c)
+                ops.append("atoi %02x3337" % c)
+                ops.append("atoi 20%02x39" % c)
+                ops.append("new c%d 41%02x5a" % (c, c))
+                ops.append("printable p%d c%d" % (c, c))
+                ops.append("lower l%d c%d" % (c, c))
+                ops.append("findfrom c%d 1 %02x" % (c, c))
+        ops.append("delall")
+        out.append(("classes", ops))
+    return out
+
+
+def prim_bounds():
+    """hand-picked boundary inputs of the primitives and of the regenerated allocation-free methods"""
+    ops = [
+        "strlen -", "strlen 00", "strlen 61", "strlen " + "62" * 200, "strlen 610062",
+        "strcmp - -", "strcmp 61 -", "strcmp - 61", "strcmp 61 61", "strcmp 6162 61", "strcmp 61 6162", "strcmp ff 01", "strcmp 01 ff",
+        "strcmp 7f 80", "strcmp 80 7f", "strcmp 6180 617f",
+        "strncmp 6162 6163 0", "strncmp 6162 6163 1", "strncmp 6162 6163 2", "strncmp 6162 6163 3", "strncmp 6162 6163 npos",
+        "strncmp 6162 6162 npos", "strncmp - - 0", "strncmp - - npos", "strncmp 61 - 1", "strncmp - 61 1", "strncmp ff 7f 1", "strncmp 61ff 617f 2",
+        "strncpy null 6162 0", "strncpy null 6162 3", "strncpy eeee 6162 0", "strncpy ee 6162 1", "strncpy eeee 6162 2", "strncpy eeeeee 6162 3",
+        "strncpy eeeeeeee 6162 4", "strncpy eeeeeeee 6162 npos", "strncpy ee - 1", "strncpy ee - 5", "strncpy 00 61 1", "strncpy 0000 61 2",
+        "strstr - -", "strstr 61 -", "strstr - 61", "strstr 6162 6162", "strstr 6162 616263", "strstr 616162 6162", "strstr 61616161 6161",
+        "strstr 6162 62", "strstr 6162 63", "strstr 80ff ff", "strstr 616261 6261",
+        "memcmp - - 0", "memcmp 61 62 0", "memcmp 61 62 1", "memcmp 00 00 1", "memcmp 0061 0062 2", "memcmp ff 00 1", "memcmp 00 ff 1", "memcmp 80 7f 1",
+        "atoi -", "atoi 2d", "atoi 2b", "atoi 2d2d31", "atoi 2b2d31", "atoi 2b31", "atoi 2d30", "atoi 32313437343833363437", "atoi 2d32313437343833363437",
+        "atoi 3030303030303030303030303132", "atoi 0d0a090b0c2031", "atoi 0831", "atoi 0e31", "atoi 312033", "atoi 31e9", "atoi 2f", "atoi 3a",
+        "atou -", "atou 2d31", "atou 2b31", "atou 34323934393637323935", "atou 34323934393637323936", "atou 34323934393637323937",
+        "atou 39393939393939393939393939393939393939", "atou 0d0a090b0c2031", "atou 2f31", "atou 3a31", "atou 3030303037",
+        "tolower 40", "tolower 41", "tolower 5a", "tolower 5b", "tolower 60", "tolower 61", "tolower c1", "tolower da", "tolower 00", "tolower ff",
+    ]
+    meth = [
+        "new e -", "new a 616263", "new b 6263", "new c 63", "new d 61626364", "new f 616263", "new h 80ff80",
+        "size e", "size a", "isempty e", "isempty a", "at a 0", "at a 2", "at a 3", "at e 0",
+        "contains e e", "contains a e", "contains e a", "contains a b", "contains a d", "contains a f", "contains b a", "contains h h",
+        "starts e e", "starts a e", "starts e a", "starts a b", "starts a f", "starts a d", "starts d a", "starts a c",
+        "ends e e", "ends a e", "ends e a", "ends a b", "ends a c", "ends a f", "ends a d", "ends b a", "ends d b",
+        "find a 61", "find a 63", "find a 7a", "find e 61", "find a 00", "findfrom a 0 63", "findfrom a 2 63", "findfrom a 3 63", "findfrom a 4 63",
+        "findfrom a npos 61", "findfrom a 1 61", "findfrom h 1 80", "findfrom e 0 00", "findfrom a 3 00",
+        "delall",
+    ]
+    return [("primbounds", ops), ("primbounds", meth)]
+
+
 def generate(rng, tier):
     n = 1100 if tier == "quick" else 14000
-    out = []
+    out = class_sweep() + prim_bounds()
     for i in range(n):
         flavour = rng.choice(["strings", "strings", "strings", "mixed", "mixed", "prims", "fmt"])
         ln = rng.choice([4, 8, 12, 20, 30]) if tier == "quick" else rng.choice([6, 12, 25, 40, 80])
@@ -552,8 +628,14 @@ def generate(rng, tier):
 
 
 def translate(ctx):
-    from translate import extract_string_consts
-    return extract_string_consts.run()
+    from translate import extract_string_consts, extract_string_prims
+    problems = []
+    for m in (extract_string_consts, extract_string_prims):
+        try:
+            problems += m.run() or []
+        except Exception as e:      # each translator reports on its own; the other one still regenerates its file
+            problems.append("%s cannot translate the current source: %s" % (m.__name__.split(".")[-1], e))
+    return problems
 
 
 ALLOC = re.compile(r"^alloc ")
@@ -592,12 +674,39 @@ def _branches(r):
         elif op == "strstr" and w[0] == "ret":
             ev.append("strstr.%s" % ("null" if w[1] == "null" else "hit"))
         elif op in ("strcmp", "strncmp", "memcmp") and w[0] == "ret":
-            ev.append("%s.%s" % (op, "zero" if w[1] == "0" else "nonzero"))
+            ev.append("%s.%s" % (op, "zero" if w[1] == "0" else "negative" if w[1].startswith("-") else "positive"))
+            if op == "strncmp":
+                ev.append("strncmp.n_%s" % ("0" if cur[3] == "0" else "npos" if cur[3] == "npos" else "other"))
+        elif op == "strncpy":
+            if w[0] == "ret":
+                ev.append("strncpy.null_destination")
+            elif w[0] == "buf":
+                srclen = 0 if cur[2] == "-" else len(cur[2]) // 2
+                k = 2 ** 64 - 1 if cur[3] == "npos" else int(cur[3])
+                ev.append("strncpy.%s" % ("n_0" if k == 0 else "truncated_no_terminator" if k <= srclen else "exact_with_terminator"
+                                          if k == srclen + 1 else "n_larger_than_source"))
+        elif op == "atoi" and w[0] == "ret":
+            ev.append("atoi.%s" % ("zero" if w[1] == "0" else "negative" if w[1].startswith("-") else "int_max" if w[1] == "2147483647" else "positive"))
+        elif op == "atou" and w[0] == "ret":
+            digits = bytes.fromhex(cur[1]) if cur[1] != "-" else b""
+            ev.append("atou.%s" % ("zero" if w[1] == "0" else "wrapped_mod_2^32" if w[1] not in digits.decode("latin1") else "plain"))
+        elif op == "tolower" and w[0] == "ret":
+            ev.append("tolower.%s" % ("changed" if w[1] != cur[1] else "unchanged"))
+        elif op == "strlen" and w[0] == "ret":
+            ev.append("strlen.%s" % ("0" if w[1] == "0" else "long" if int(w[1]) >= 97 else "short"))
+        elif op == "at" and w[0] == "ret":
+            ev.append("at.%s" % ("terminator" if w[1] == "00" else "byte"))
+        elif op == "size" and w[0] == "ret":
+            ev.append("size.%s" % ("zero" if w[1] == "0" else "nonzero"))
+        elif op == "isempty" and w[0] == "ret":
+            ev.append("isempty.%s" % ("true" if w[1] == "1" else "false"))
     return ev
 
 
 def nontrivial(r):
     executed = [l for l in r.impl if l.startswith("> ") and l != "> skip"]
+    if r.id.split(":")[0] in ("primbounds", "classes"):
+        return len(executed) >= 2 and bool(_branches(r))
     return len(executed) >= 2 and any(ALLOC.match(l) for l in r.impl) and bool(_branches(r))
 
 
